@@ -130,14 +130,30 @@ def work1(task):
         mo = ("E", inf["err"]) if inf["err"] else ("OK",)
         res["load"] = {"impl": im, "model": mo}
         return res
+    # the SPEC (entries 3 / 4) is evaluated on a reference stream decoded independently of the model's decoder
+    ref = T.py_reference(b)
+    sb = None
+    if ref is not None:
+        rinf = T.info(o, ref[2])
+        same = (rinf.get("err") == 0 and rinf["init"] == inf["init"] and rinf["trans"] == inf["trans"]
+                and [tuple(x) for x in rinf["trans"]] == [tuple(x) for x in ref[1]] and rinf["init"] == ref[0])
+        res["reference_decoder"] = "agrees" if same else "DISAGREES"
+        if same:
+            sb = ref[2]
+        else:
+            res["reference_diff"] = {"model_init": inf["init"], "ref_init": ref[0],
+                                     "first_difference": next(((i, a, b_) for i, (a, b_) in enumerate(zip(inf["trans"], ref[1])) if tuple(a) != tuple(b_)), None),
+                                     "lengths": [len(inf["trans"]), len(ref[1])]}
+    else:
+        res["reference_decoder"] = "not applicable"
     if cid in ("C04", "C06"):
         us = T.utc_instants(inf, r, p["nrand"], p["max_trans"])
-        res["utc"] = T.examine_utc(o, name, b, z, inf, us, usec_of)
+        res["utc"] = T.examine_utc(o, name, b, z, inf, us, usec_of, sb)
     if cid == "C05":
         us = T.utc_instants(inf, r, p["nrand"] // 2, None if p["max_trans"] is None else p["max_trans"] // 2)
-        res["utc"] = T.examine_utc(o, name, b, z, inf, us, usec_of)
+        res["utc"] = T.examine_utc(o, name, b, z, inf, us, usec_of, sb)
         ws = T.wall_instants(inf, r, p["nrand"], p["max_trans"], p["thin"])
-        res["wall"] = T.examine_wall(o, name, b, z, inf, ws)
+        res["wall"] = T.examine_wall(o, name, b, z, inf, ws, sb)
     if cid == "C06":
         names = T.unpack_corpus() if is_corpus else {}
         arch = build_archive([(name, b)])
@@ -536,6 +552,14 @@ def replay(cid, path):
     return 0
 
 
+def preimages_of_instant(o, b, u):
+    """number of UTC pre-images of the wall reading the SPEC assigns to instant u"""
+    sp = T.spec_utc(o, b, [u])
+    if not isinstance(sp, list):
+        return None
+    return len(T.spec_wall(o, b, [sp[0][1]])[0]["pre"])
+
+
 class OrderedVerdict(object):
     """Buffers the violations of a run and hands them to common.Verdict with the CONCRETE ones first
     (common.Verdict prints the first five): a concrete failing input must not be hidden behind
@@ -666,8 +690,18 @@ def main(cid):
                          "folds_observed": 0, "instants_in_data_range": 0,
                          "preimage_count": {"0": 0, "1": 0, "2": 0, "more": 0},
                          "resolve_imaginary_checked": 0, "gaps_outside_isolation_hypothesis": 0,
-                         "synthetic_shapes": {}}
+                         "synthetic_shapes": {}, "failures_outside_wf_zone_reported": 0,
+                         "failures_outside_wf_zone_unsatisfiable": 0, "failures_outside_wf_zone_not_sampled": 0,
+                         "instants_from_last_transition_on": 0, "from_last_transition_on_not_the_data_type": 0}
     not_isolated = []
+    zone_bytes_map = dict(zones)
+
+    def zone_bytes_of(nm):
+        if nm in zone_bytes_map:
+            return zone_bytes_map[nm]
+        if nm in names:
+            return T.zone_bytes(nm, names)
+        return bytes.fromhex(synth_hex[nm])
     synth_hex = dict((n, b.hex()) for n, b, _ in synth)
     for res in results:
         name = res["name"]
@@ -688,6 +722,11 @@ def main(cid):
                                    "impl": res["load"]["impl"], "model": res["load"]["model"]}, concrete=False)
             continue
         inf = res["info"]
+        hist["reference_decoder_" + res.get("reference_decoder", "not applicable").replace(" ", "_")] = \
+            hist.get("reference_decoder_" + res.get("reference_decoder", "not applicable").replace(" ", "_"), 0) + 1
+        if res.get("reference_decoder") == "DISAGREES":
+            verdict.violation({"kind": "the model's decoder (zone_of) disagrees with the harness's independent struct decoding "
+                                       "of the same bytes", "input": zin, "detail": res.get("reference_diff")}, concrete=False)
         hist["transitions_total"] += res["ntrans"]
         guard_ok = bool(inf["wf_zone"]) and bool(inf["good"])
         if not inf["wf_zone"]:
@@ -726,12 +765,37 @@ def main(cid):
                         verdict.violation({"kind": "fromutc: wall reading is not the instant plus the data's offset",
                                            "input": dict(zin, u=x["u"]), "detail": x})
             if not guard_ok:
-                n_spec_diff += len(conc)
+                # outside the theorem guard nothing is dropped: a failure at an instant whose wall reading has at
+                # most two pre-images (the property is satisfiable there) is reported as a violation carrying
+                # outside_wf_zone (class of finding F-C0x-short-regime); with three or more pre-images no tzinfo
+                # can answer, those are counted as unsatisfiable
+                for kind, x in conc:
+                    npre = preimages_of_instant(o, zone_bytes_of(name), x["u"])
+                    if npre is not None and npre <= 2:
+                        hist["failures_outside_wf_zone_reported"] += 1
+                        n_spec_diff += 1
+                        concrete_found = True
+                        verdict.violation({"kind": kind, "input": dict(zin, u=x["u"], outside_wf_zone=True,
+                                                                      preimages_of_wall=npre), "detail": x})
+                    else:
+                        hist["failures_outside_wf_zone_unsatisfiable"] += 1
                 conc = []
             for kind, x in conc[:2]:
                 concrete_found = True
                 n_spec_diff += 1
                 verdict.violation({"kind": kind, "input": dict(zin, u=x["u"]), "detail": x})
+            # from the last transition on: against the RAW data (audit A2), reported through its finding
+            hist["instants_from_last_transition_on"] += ut.get("after_last_n", 0)
+            hist["from_last_transition_on_not_the_data_type"] += ut.get("n_after_last", 0)
+            if inf["wf_data"] and cid in ("C04", "C06"):
+                al = ut.get("after_last", [])
+                if cid == "C06":
+                    al = [x for x in al if x["u"] == x["last_transition"]]   # "from the first TO the last transition"
+                for x in al[:1]:
+                    verdict.violation({"kind": "property: from the last transition on the offset / abbreviation reported is "
+                                               "ttinfo_std's, not the type the data assigns",
+                                       "input": dict(zin, u=x["u"], after_last=True, last_transition=x["last_transition"]),
+                                       "detail": x})
             if ut["n_model_diff"] and not concrete_found:
                 n_model_diff += ut["n_model_diff"]
                 x = ut["model_diff"][0]
@@ -757,7 +821,18 @@ def main(cid):
                     verdict.violation({"kind": "property: " + x["why"], "input": dict(zin, w=x["w"], fold=x["fold"]),
                                        "detail": x})
             else:
-                n_spec_diff += wl["n_spec_diff"]
+                for x in wl["spec_diff"]:
+                    npre = len(x["spec"]["pre"])
+                    if npre <= 2:
+                        hist["failures_outside_wf_zone_reported"] += 1
+                        n_spec_diff += 1
+                        concrete_found = True
+                        verdict.violation({"kind": "property: " + x["why"],
+                                           "input": dict(zin, w=x["w"], fold=x["fold"], outside_wf_zone=True,
+                                                         preimages_of_wall=npre), "detail": x})
+                    else:
+                        hist["failures_outside_wf_zone_unsatisfiable"] += 1
+                hist["failures_outside_wf_zone_not_sampled"] += max(0, wl["n_spec_diff"] - len(wl["spec_diff"]))
             if wl["n_model_diff"] and not concrete_found:
                 n_model_diff += wl["n_model_diff"]
                 x = wl["model_diff"][0]
@@ -902,7 +977,7 @@ def main(cid):
         "samples": samples[:10],
         "input_distribution": hist,
         "model_vs_impl_disagreements": n_model_diff,
-        "spec_vs_impl_disagreements_in_guard": n_spec_diff if verdict.violations else 0,
+        "spec_vs_impl_disagreements": n_spec_diff,
         "zones_outside_wf_zone": {"count": len(outside_wf), "names": outside_wf[:40],
                                   "note": "wf_zone evaluated by the extracted checker on every zone; for zones "
                                           "outside it only model-vs-implementation is compared"},
@@ -941,6 +1016,6 @@ def main(cid):
                      len(verdict.violations))
     print("%s %s: obligations %d/%d, %d zones (+%d synthetic), %d evaluations, model-diff %d, spec-diff %d, "
           "outside wf %d, %.1fs" % (cid, tier, props["discharged"], props["obligations"], len(zones), len(synth),
-                                    evals, n_model_diff, n_spec_diff if verdict.violations else 0,
+                                    evals, n_model_diff, n_spec_diff,
                                     len(outside_wf), time.time() - t0))
     return rc
